@@ -14,6 +14,7 @@ from __future__ import annotations
 import json
 import multiprocessing as mp
 import os
+import threading
 import zlib
 from concurrent.futures import ThreadPoolExecutor
 
@@ -55,10 +56,43 @@ def modes_for(h: int, case: dict, tier: str) -> tuple:
     return tuple(m)
 
 
-def run_group(group, tier):
+class Feeder:
+    """Streams the layouts TLC prints into the replay pool (chunks of 40), from several TLC reader threads."""
+
+    def __init__(self, pool, tier):
+        self.pool, self.tier = pool, tier
+        self.lock = threading.Lock()
+        self.pending, self.doms, self.n = [], {}, 0
+
+    def sink(self):
+        chunk = []
+
+        def add(case):
+            h = case_hash(case)
+            chunk.append((h, case, h % 4, modes_for(h, case, self.tier)))
+            if len(chunk) >= 40:
+                flush()
+
+        def flush():
+            from gverif.props import x02_replay  # noqa: PLC0415
+
+            if chunk:
+                with self.lock:
+                    for _, c, _, _ in chunk:
+                        self.doms[c["dom"]] = self.doms.get(c["dom"], 0) + 1
+                    self.n += len(chunk)
+                    self.pending.append(self.pool.apply_async(x02_replay.check_chunk, (list(chunk),)))
+                del chunk[:]
+
+        return add, flush
+
+
+def run_group(group, tier, feeder):
     name, doms, workers = group
+    add, flush = feeder.sink()
     res = tlc.run("SrcLayout", "SrcLayout_run.cfg", workers=workers, constants={"DOMAINS": Q(doms), "DEEP": "TRUE" if tier == "thorough" else "FALSE"},
-                  timeout=3000 if tier == "thorough" else 900, heap="8g" if tier == "thorough" else "3g")
+                  timeout=3000 if tier == "thorough" else 900, heap="8g" if tier == "thorough" else "3g", keep_cases=False, on_line=add)
+    flush()
     return group, res
 
 
@@ -97,48 +131,31 @@ def main(tier: str, replay: str | None = None):
 
     nproc = max(2, min(12, (os.cpu_count() or 4) - 2))
     pool = mp.get_context("fork").Pool(nproc)          # before any TLC output is parsed (copy-on-write)
-    pending = []
+    feeder = Feeder(pool, tier)
     totals = {"cases": 0, "objects": 0, "drift": 0, "inspected": 0, "modes": {}}
-    idx = 0
     fatal = None
-    meta = {}
-    doms_seen = set()
     try:
         with ThreadPoolExecutor(max_workers=5) as ex:
-            futs = [ex.submit(run_group, g, tier) for g in GROUPS[tier]]
+            futs = [ex.submit(run_group, g, tier, feeder) for g in GROUPS[tier]]
             fex = ex.submit(run_exhibits)
             for fut in futs:
                 group, res = fut.result()
-                name = group[0]
                 tlc.must(res)
                 run.add_tlc(res)
-                if not res.cases:
-                    die(f"X02: TLC run {name} emitted no layout")
-                chunk = []
-                for case in res.cases:
-                    meta[idx] = (case["dom"], case)
-                    doms_seen.add(case["dom"])
-                    h = case_hash(case)
-                    chunk.append((idx, case, h % 4, modes_for(h, case, tier)))
-                    idx += 1
-                    if len(chunk) == 40:
-                        pending.append(pool.apply_async(x02_replay.check_chunk, (chunk,)))
-                        chunk = []
-                if chunk:
-                    pending.append(pool.apply_async(x02_replay.check_chunk, (chunk,)))
-                res.cases = []
+                if not res.ncases:
+                    die(f"X02: TLC run {group[0]} emitted no layout")
             xres = fex.result()
             if xres.errors or not xres.finished or not EXHIBIT_INV <= set(xres.violated) or "RefNested" in xres.violated:
                 die(f"X02: the defect domains no longer violate {sorted(EXHIBIT_INV - set(xres.violated))} on the model (errors={xres.errors[:2]})")
             run.add_tlc(xres)
-        if EXPECT_DOMAINS - doms_seen:
-            die(f"X02: no layout emitted for domains {sorted(EXPECT_DOMAINS - doms_seen)}")
-        seen_causes = set()
-        for p in pending:
-            for i, r in p.get(timeout=3000):
-                name, case = meta[i]
+        if EXPECT_DOMAINS - set(feeder.doms):
+            die(f"X02: no layout emitted for domains {sorted(EXPECT_DOMAINS - set(feeder.doms))}")
+        totals["domains"] = dict(sorted(feeder.doms.items()))
+        for p in feeder.pending:
+            for h, r in p.get(timeout=6000):
+                case = r.get("case")
                 if r["fatal"]:
-                    fatal = fatal or f"[{name}] {r['fatal']} on items {json.dumps(case['items'])} head {case['head']}"
+                    fatal = fatal or f"[{case['dom']}] {r['fatal']} on items {json.dumps(case['items'])} head {case['head']}"
                     continue
                 totals["cases"] += 1
                 totals["objects"] += r["objects"]
@@ -150,11 +167,10 @@ def main(tier: str, replay: str | None = None):
                 run.evaluated(r["objects"])
                 for k in r["keys"]:
                     run.nontrivial_case(tuple(k))
-                if len(run.samples) < 5 and r["objects"] > 2:
-                    run.sample({"config": name, "head": case["head"], "items": case["items"], "ref": case["ref"]})
+                if case is not None and not r["viol"]:
+                    run.sample({"dom": case["dom"], "head": case["head"], "items": case["items"], "ref": case["ref"]})
                 for sig, what in r["viol"]:
-                    seen_causes.add(sig["cause"])
-                    run.violation(sig, what, {"case": case, "variant": case_hash(case) % 4, "modes": list(modes_for(case_hash(case), case, tier))})
+                    run.violation(sig, what, {"case": case, "variant": h % 4, "modes": list(modes_for(h, case, tier))})
     finally:
         pool.terminate()
     if fatal:
